@@ -263,6 +263,11 @@ def run_case(spec):
         par = {}
         for a, c in enumerate('xyz'):
             par['N' + c], par[c + 'min'], par['d' + c] = axes[a]
+        if rng.random() < 0.12:
+            # an axis listed downwards (negative spacing): still min + i*spacing
+            c = 'xyz'[int(rng.integers(3))]
+            par[c + 'min'] = par[c + 'min'] + (par['N' + c] - 1) * par['d' + c]
+            par['d' + c] = -par['d' + c]
         if rng.random() < 0.15:
             # the same grid in other units (boxes of 1e-9 or 1e6 across)
             u = float(rng.choice([1e-9, 1e-12, 1e6]))
@@ -307,6 +312,12 @@ def run_case(spec):
                 for c in ('xmax', 'ymax', 'zmax', 'Lx', 'Ly', 'Lz'):
                     pq.pop(c, None)
                 check_null_rays(res, pq, 4, ctr)      # same extraction centre in both
+            # a centre away from the origin whose components add up to zero
+            pc = dict(pa)
+            w = 2.0 * abs(pa['dx'])
+            for c, off in zip('xyz', (w, -w, 0.0)):
+                pc[c + 'min'] = off - 0.5 * (pc['N' + c] - 1) * pc['d' + c]
+            check_null_rays(res, pc, 4, (w, -w, 0.0))
     return res
 
 
@@ -329,7 +340,7 @@ def check_null_rays(res, par, order, mid):
     rc = np.sqrt(X * X + Y * Y + Z * Z)
     mg = 4                      # away from the one-sided stencils
     I = (slice(mg, -mg),) * 3
-    m = rc[I] > 3.0 * max(par['dx'], par['dy'], par['dz'])
+    m = rc[I] > 3.0 * max(abs(par['dx']), abs(par['dy']), abs(par['dz']))
     res['observations'] += 1
     if not m.any():
         return
